@@ -220,6 +220,31 @@ Definition eval_json_nodes (nested : list jn) (cs : list comp) : result (list vr
 
 End Json.
 
+(* nesting depth of a rendering (members, repetitions, factor and attributes all count) *)
+Fixpoint vheight (v : jv) : nat :=
+  match v with JV _ _ ats => S (list_max (map vheight ats)) end.
+Fixpoint jheight (n : jn) : nat :=
+  match n with
+  | JNo _ => 1
+  | JSeqN _ ms => S (list_max (map jheight ms))
+  | JRep _ f reps =>
+      S (Nat.max (match f with Some v => vheight v | None => 0 end)
+                 (list_max (map (fun rep => list_max (map jheight rep)) reps)))
+  | JVal v => vheight v
+  end%nat.
+
+(* ---- a rendering that shows every attribute ------------------------------------------------ *)
+(* render_value unfolds attributes of attributes [k] levels deep.  A descendant search sees
+   the whole of a node only when no chain of attributes is cut short: *)
+Fixpoint no_chain (attrs : list attr) (k : nat) (i : N) : bool :=
+  match k with
+  | O => match Query.attrs_of attrs i with [] => true | _ => false end
+  | S k' => forallb (no_chain attrs k') (Query.attrs_of attrs i)
+  end.
+(* no chain of more than [k] attribute links starts anywhere *)
+Definition saturated (attrs : list attr) (k : nat) : bool :=
+  forallb (fun a => no_chain attrs k (fst (fst a))) attrs.
+
 (* ---- the same evaluation over the wired tree ------------------------------------------- *)
 Section Tree.
 Context (attrs : list attr) (labels : list (list char)).
